@@ -402,7 +402,7 @@ def one_case(rng, kind=None):
 
 def cases(rng, tier):
     out = []
-    n = 2500 if tier == "quick" else 200000
+    n = 7500 if tier == "quick" else 200000
     for _ in range(n):
         out.append(one_case(rng))
     # systematic placements x policies on a fixed long same-origin chain and a cross-origin chain
